@@ -137,6 +137,11 @@ class Plot(object):
     def path(self, outdir, kind):
         return os.path.join(outdir, self.dirname, self.gname + "." + kind)
 
+    def expected_tex(self, outdir, version):
+        """What Workspace.write_template(version) renders to for this plot / group."""
+        csvs = " ".join(self.csv_path(outdir, m) for m in range(1, self.nsrc + 1))
+        return "%s END\n%% template version %d for %s" % (csvs, version, self.gname)
+
 
 class Tap(object):
     """Pass-through element that remembers the text produced for each source / plot (the content the
@@ -310,9 +315,10 @@ def run_history(ws, sc, st, steps, same_objects=False, variant=0):
             for m in range(1, pl.nsrc + 1):
                 if pl.members[m - 1] in ws.tap_csv.seen:
                     texts[pl.p]["csv"][m - 1][data_ver[pl.p][m - 1]] = ws.tap_csv.seen[pl.members[m - 1]]
-            key = pl.gname if pl.grouped else pl.members[0]
-            if key in ws.tap_tex.seen:
-                texts[pl.p]["tex"][tpl_ver] = ws.tap_tex.seen[key]
+            # the tex text is computed here from the template version, NOT taken from what RenderLaTeX
+            # yielded: a RenderLaTeX that renders an outdated template must not define "current"
+            for v in range(1, tpl_ver + 1):
+                texts[pl.p]["tex"][v] = pl.expected_tex(outdir, v)
         obs = []
         expected_paths = set()
         for pl in plots:
